@@ -55,7 +55,13 @@ EXPLANATION = (
     "runner: buffer, heap, started workers, state), plus context_from_ticks on truncated stores, plus the handler selection on generated "
     "handler tables; the start query, the exit-status table, the shape of replay_ticks_stream (rewind first, one reduce per tick, no early exit), 'on_tick before the command loop' and 'validate before replay' are re-extracted from the sources into GenReplay.lean and pinned by C13_source_shape. Search: the process is stopped at the instant the k-th tick is persisted (for EVERY k), restarted, and the run must end "
     "with the uninterrupted run's status, result and state-store contents; finalized handlers must not enter any step; ticks must be "
-    "persisted before any of their commands take effect."
+    "persisted before any of their commands take effect. Reading the log back: model TickStream (SqliteWorkflowStore.stream_ticks: keyset pages of _TICK_PAGE_SIZE rows, cursor = last "
+    "row yielded, stop on a short page); C13_stream_ticks_complete: for every strictly increasing sequence column of any length and every positive page size the stream is exactly "
+    "get_ticks' rows, in order, none skipped or repeated; C13_tick_stream_shape pins the page size, both page queries, the cursor assignment and the exit test re-extracted from the source. "
+    "Tie: `stream` op on the table's own sequence column for logs below, at and beyond 1, 2, 3 pages (page size read from the source on every run). Search: stream_ticks, get_ticks and "
+    "stream_workflow_ticks of both stores against what append_tick was given (a second run interleaved); a chain persisting more than two pages of ticks restarted from the sqlite and memory "
+    "stores at stops beyond one and two pages and after its end (same result and state store as uninterrupted; the restart must replay every persisted tick once, in order). The harness' "
+    "notion of 'the persisted log' is the record of append_tick calls, not a read of the store."
 )
 LEVEL_TEXT = "proof (refuted clauses recorded as known findings; quiescent-prefix part proved)"
 ASSUMPTIONS = suite.ENGINE_ASSUMPTIONS + [
@@ -66,10 +72,11 @@ ASSUMPTIONS = suite.ENGINE_ASSUMPTIONS + [
     "error strings are abstracted to their origin (step exception id, timeout, no-state, resume error)",
     "the model replays with the live configuration (catch_error tables included): true of the code since the repair fix-C13 (context_from_ticks validates first); on the unrepaired tree C13_source_shape and the `restart` correspondence fail",
     "C13_state_kept assumes the live state's running flag is set (it is after the start tick unless the run ended); theorems are about logs of runs started fresh (logs that span a resume: C13_refuted_second_restart)",
-    "postgres / DBOS stores are not run",
+    "postgres / DBOS / agent-data stores are not run (their paginated stream_ticks are separate code with the same page loop)",
+    "TickStream: a run's sequence column is strictly increasing (append_tick assigns MAX(sequence)+1 per run under one writer; checked on every generated log)",
 ]
 TRUSTED_EXTRA = [
-    "harness/server/stack.py, harness/server/restart.py: in-process WorkflowServer wiring, store views with a kill switch, tick-log truncation",
+    "harness/server/stack.py, harness/server/restart.py: in-process WorkflowServer wiring, store views with a kill switch and a record of every append_tick call (the reference log), tick-log truncation",
 ]
 
 NOSTATE = "handler crashed before persisting any state; cannot resume"
@@ -1166,7 +1173,8 @@ def _run(env: Env) -> Outcome:
     out.rule = ("deterministic fan-out/collect workflows (specgen.gen_det_spec; 1..3 workers, retries without delay; a share with retry delays for "
                 "classification; a family of steps suspended in wait_for_event with/without requirements answered from outside) plus hand-picked edge workflows for every exit kind, on the real server stack with memory and sqlite stores; "
                 "for every k in 0..n the process is stopped when the k-th tick is persisted and restarted; non-trivial = a stop at 1 <= k <= n that was "
-                "reached; distinct by (spec, schedule seed, store, k). K: model `restart`/`ctx`/`pick` ops on the same tick lines")
+                "reached; distinct by (spec, schedule seed, store, k). K: model `restart`/`ctx`/`pick` ops on the same tick lines; plus logs of n ticks (n below/at/beyond 1..3 store pages, a second run interleaved) appended to a store and read back "
+                "(`stream` op), and one chain of > 2 pages of ticks restarted beyond each page boundary")
     rng = random.Random(env.rng.randrange(1 << 30))
     ops: list[str] = []
     exp: list[str] = []
